@@ -185,11 +185,12 @@ Proof.
 Qed.
 
 (* the mime type, outside the trigger *)
-Lemma replica_mime (nrepl fault : N) (d : bool) :
-  trig_mime {| u_req := q; u_oracles := o; u_nrepl := nrepl; u_fault := fault; u_delete := d |} = false ->
+Lemma replica_mime :
+  body_empty (n_body N0) = false ->
+  trig_mime o q = false ->
   n_mime N1 = n_mime N0.
 Proof.
-  intros H. unfold trig_mime, primary_needle in H. cbn [u_req u_oracles] in H. cbv zeta in H.
+  intros Hbody H. unfold trig_mime in H. cbv zeta in H. rewrite Hbody in H. cbn [negb andb] in H.
   assert (Hput : q_put R0 = false) by reflexivity.
   assert (Hcm : q_cm R0 = n_cm N0) by reflexivity.
   assert (Hct : q_ctype R0 = if String.eqb (repl_mtype1 o N0) "" then tbe o (ext_filepath (n_name N0))
@@ -237,125 +238,3 @@ Proof.
 Qed.
 
 End Replica.
-
-(* ---------- the property ---------- *)
-
-Lemma same_outcome_views : forall o q nrepl fault d,
-  let u := {| u_req := q; u_oracles := o; u_nrepl := nrepl; u_fault := fault; u_delete := d |} in
-  trig_empty u = false -> trig_mime u = false ->
-  same_outcome (view_of (primary_needle u)) (view_of (replica_needle u)) = true.
-Proof.
-  intros o q nrepl fault d u Hemp Hmime.
-  unfold replica_needle, primary_needle, u. cbn [u_req u_oracles].
-  set (n := create_needle o q). set (n' := create_needle o (replicate o n)).
-  assert (Hb : body_empty (n_body n) = false) by exact Hemp.
-  pose proof (replica_body_nonempty o q Hb) as Hb'. fold n n' in Hb'.
-  unfold view_of. rewrite Hb, Hb'. unfold same_outcome.
-  cbn [so_state so_name so_mime so_pairs so_lastmod so_ttl so_dec_ok so_len so_crc].
-  pose proof (replica_name_view o q) as Hn. fold n n' in Hn.
-  pose proof (replica_pairs_view o q) as Hp. fold n n' in Hp.
-  pose proof (replica_lastmod o q) as Hl. fold n n' in Hl.
-  pose proof (replica_ttl_view o q) as Ht. fold n n' in Ht.
-  pose proof (replica_content o q) as [Hc1 [Hc2 Hc3]]. fold n n' in Hc1, Hc2, Hc3.
-  pose proof (replica_mime o q nrepl fault d Hmime) as Hm. fold n n' in Hm.
-  assert (Hmv : (if n_has_mime n' then n_mime n' else "") = (if n_has_mime n then n_mime n else "")).
-  { assert (Hx : forall m, (if n_has_mime m then n_mime m else "") = n_mime m -> True) by auto.
-    assert (Hk : forall oo qq, (if n_has_mime (create_needle oo qq) then n_mime (create_needle oo qq) else "")
-                               = n_mime (create_needle oo qq)).
-    { intros oo qq. cbn [create_needle n_has_mime n_mime]. destruct (slen (parsed_mime oo qq) <? 256); reflexivity. }
-    unfold n', n. rewrite !Hk. exact Hm. }
-  rewrite Hn, Hmv, Hp, Hl, Ht, Hc1, Hc2, Hc3.
-  rewrite !String.eqb_refl, pairs_eqb_refl, !N.eqb_refl, Bool.eqb_reflx. reflexivity.
-Qed.
-
-Lemma forallb_repeat : forall (A : Type) (f : A -> bool) x n, f x = true -> forallb f (repeat x n) = true.
-Proof. intros A f x n H. induction n as [|n IH]; [reflexivity|]. cbn. rewrite H. exact IH. Qed.
-
-(* outside the two triggers an acknowledged upload leaves every replica with the
-   primary's outcome, and an acknowledged delete leaves the file served nowhere -
-   whatever the fault *)
-Theorem same_outcome_partial : forall u,
-  trig_empty u = false -> trig_mime u = false ->
-  upload_consistent (upload_status u) (views_after_upload u) = true /\
-  delete_consistent (delete_status u) (views_after_delete u) = true.
-Proof.
-  intros [q o nrepl fault d] Hemp Hmime.
-  set (u := {| u_req := q; u_oracles := o; u_nrepl := nrepl; u_fault := fault; u_delete := d |}) in *.
-  split.
-  - unfold upload_consistent, views_after_upload.
-    destruct (fault =? 3) eqn:Ef.
-    + (* a listed location without the volume: the upload is not acknowledged *)
-      apply N.eqb_eq in Ef. unfold upload_status. cbn [u u_fault]. rewrite Ef. reflexivity.
-    + apply orb_true_iff. right. apply forallb_repeat.
-      unfold replica_view. cbn [u u_fault]. rewrite Ef.
-      exact (same_outcome_views o q nrepl fault d Hemp Hmime).
-  - unfold delete_consistent, views_after_delete. apply orb_true_iff. right.
-    assert (Hb : body_empty (n_body (primary_needle u)) = false) by exact Hemp.
-    cbn [forallb]. unfold deleted_view at 1. rewrite Hb.
-    assert (Hd : is_deleted (blank 2 false) = true) by reflexivity. rewrite Hd. cbn [andb].
-    apply forallb_repeat. cbn [u u_fault]. destruct (fault =? 3); [reflexivity|]. unfold deleted_view.
-    unfold replica_needle, primary_needle in *. cbn [u u_req u_oracles] in *.
-    rewrite (replica_body_nonempty o q Hb). reflexivity.
-Qed.
-
-(* a replica that answers with an error, is unreachable, or is a volume server that
-   does not hold the volume makes the upload fail; the first two also make the delete fail *)
-Theorem failure_reported : forall u,
-  (u_fault u = 1 \/ u_fault u = 2 \/ u_fault u = 3 -> success (upload_status u) = false) /\
-  (u_fault u = 1 \/ u_fault u = 2 -> success (delete_status u) = false).
-Proof.
-  intros u. split.
-  - intros [H|[H|H]]; unfold upload_status; rewrite H; reflexivity.
-  - intros [H|H]; unfold delete_status; rewrite H; reflexivity.
-Qed.
-
-(* ---------- the full statement fails: witnesses ---------- *)
-
-Definition mk_upload (put : bool) (name ctype : string) (blen bcrc : N) (detect : string)
-  (exts : list (string * string)) (nrepl fault : N) : upload :=
-  {| u_req := {| q_put := put; q_name := name; q_ctype := ctype; q_gzip := false; q_pairs := [];
-                 q_ts := 12345; q_ttl_set := false; q_ttl := (0, 0); q_cm := false;
-                 q_body := {| b_len := blen; b_crc := bcrc; b_gz := false |} |};
-     u_oracles := {| o_detect := detect; o_gz128 := false; o_ext_types := exts |};
-     u_nrepl := nrepl; u_fault := fault; u_delete := true |}.
-
-(* no mime on the primary, a text payload: the replica stores the sniffed type *)
-Definition witness_sniffed : upload :=
-  mk_upload false "b.bin" "" 24 1485685935 "text/plain; charset=utf-8" [(".bin", octet)] 1 0.
-(* PUT with application/octet-stream: kept by the primary, dropped by the replica *)
-Definition witness_put_octet : upload :=
-  mk_upload true "" octet 10 1164760902 octet [] 1 0.
-(* empty payload *)
-Definition witness_empty : upload :=
-  mk_upload false "a.txt" "text/plain" 0 0 "text/plain; charset=utf-8" [(".txt", "text/plain; charset=utf-8")] 1 0.
-(* a listed location without the volume *)
-Definition witness_lost_volume : upload :=
-  mk_upload false "a.txt" "text/plain" 24 1485685935 "text/plain; charset=utf-8" [(".txt", "text/plain; charset=utf-8")] 1 3.
-
-Theorem same_outcome_refuted_mime :
-  success (upload_status witness_sniffed) = true /\
-  upload_consistent (upload_status witness_sniffed) (views_after_upload witness_sniffed) = false /\
-  map so_mime (views_after_upload witness_sniffed) = [""; "text/plain; charset=utf-8"] /\
-  success (upload_status witness_put_octet) = true /\
-  map so_mime (views_after_upload witness_put_octet) = [octet; ""].
-Proof. vm_compute. repeat split. Qed.
-
-Theorem same_outcome_refuted_empty :
-  success (upload_status witness_empty) = true /\
-  upload_consistent (upload_status witness_empty) (views_after_upload witness_empty) = false /\
-  map so_name (views_after_upload witness_empty) = [""; "a.txt"] /\
-  success (delete_status witness_empty) = true /\
-  map so_state (views_after_delete witness_empty) = [0; 2].
-Proof. vm_compute. repeat split. Qed.
-
-(* regression witness of the repaired defect: the location without the volume holds
-   nothing, and the upload is no longer acknowledged *)
-Theorem lost_volume_reported :
-  map so_state (views_after_upload witness_lost_volume) = [0; 3] /\
-  upload_status witness_lost_volume = 500 /\
-  upload_consistent (upload_status witness_lost_volume) (views_after_upload witness_lost_volume) = true.
-Proof. vm_compute. repeat split. Qed.
-
-Theorem same_outcome_refuted : exists u,
-  success (upload_status u) = true /\ upload_consistent (upload_status u) (views_after_upload u) = false.
-Proof. exists witness_sniffed. vm_compute. split; reflexivity. Qed.
